@@ -205,6 +205,23 @@ func Hostile() []Seed {
 		j, jm := build.JPEG{Segs: []build.Seg{build.ICCSeg(1, 1, []byte("0123456789abcdefg")), {Marker: 0xC0, Data: build.SOF(8, 2, 3, [][3]byte{{1, 0x11, 0}})}}, SOS: []byte{1, 1, 0, 0, 63, 0}}.Bytes()
 		add("jpeg-ends-after-sof", j[:jm.Marks["sofEnd"]])
 	}
+	// complete (if minimal) files followed by more of the stream than any read-ahead holds: a PNG that reaches a
+	// well-formed IEND without image data, with and without a profile; a JPEG up to EOI; a WebP whose RIFF size ends
+	// before the data does
+	{
+		tail := make([]byte, 6000)
+		for i := range tail {
+			tail[i] = byte(i*31 + 5)
+		}
+		p1, _ := build.PNG{W: 3, H: 2, Depth: 8, ColorType: 2, NoIDAT: true}.Bytes()
+		add("png-ihdr-iend-then-data", append(p1, tail...))
+		p2, _ := build.PNG{W: 3, H: 2, Depth: 8, ColorType: 2, NoIDAT: true, Pre: []build.Chunk{{Type: "tEXt", Data: []byte("k\x00v")}}}.Bytes()
+		add("png-text-iend-then-data", append(p2, tail...))
+		j, _ := build.JPEG{Segs: []build.Seg{{Marker: 0xC0, Data: build.SOF(8, 2, 3, [][3]byte{{1, 0x11, 0}})}}}.Bytes()
+		add("jpeg-sof-eoi-then-data", append(j, tail...))
+		w, _ := build.WebP{Chunks: []build.RIFFChunk{{FourCC: "VP8L", Data: build.VP8LHeader(4, 4, false)}}}.Bytes()
+		add("webp-then-data", append(w, tail...))
+	}
 	for _, n := range []uint32{0, 1, 8, 9, 12, 14, 0xFFFFFFFF, 0x80000000} { // IHDR length edges
 		d := append([]byte(nil), build.PNGSig...)
 		d = append(d, byte(n>>24), byte(n>>16), byte(n>>8), byte(n), 'I', 'H', 'D', 'R', 0, 0, 0, 1, 0, 0, 0, 1, 8, 2, 0, 0, 0, 1, 2, 3, 4, 0, 0, 0, 0, 'I', 'D', 'A', 'T')
